@@ -1,6 +1,7 @@
 """C05 / C06 — open/mutate over the model filesystem: encoding choice, what is written, and fault behaviour (CrossHair harness)."""
 import io
 import xhlib
+from xhlib import L1, L2, L3, L4
 from xhlib import ModelFS, REC, record_keep, stream_of_text
 import simfile
 from simfile import mutate, CancelMutation, open_with_detected_encoding
@@ -59,7 +60,7 @@ def _edit(sf, op, v):
 
 def mutate_ok(d0: bool, d1: bool, ssc: bool, has_out: bool, has_bak: bool, clash: int, op: int, v: str) -> bool:
     """
-    pre: 0 <= clash <= 2 and 0 <= op <= 4 and len(v) <= 2
+    pre: 0 <= clash <= 2 and 0 <= op <= 4 and len(v) <= L2
     post: _
     """
     global LAST
